@@ -23,6 +23,9 @@ type MSeries struct {
 	// set under different fingerprints (the reader's own "double labels set found" case: a series written by
 	// writers that hashed the labels differently); the stored series is then the union of their samples.
 	Fp uint64 `json:"fp,omitempty"`
+	// FpZero stores the series under fingerprint 0 (a legal hash value; it sorts first and equals the zero value of
+	// the "previous fingerprint" variables of the row loops).
+	FpZero bool `json:"fp_zero,omitempty"`
 	// TwoIndexRows stores the time_series row twice (two days), as the daily re-insert of the writer does.
 	TwoIndexRows bool `json:"two_index_rows,omitempty"`
 }
@@ -54,6 +57,9 @@ func (d *MetricDB) Tables() (*chsim.DB, error) {
 		fp := uint64(i + 1)
 		if s.Fp != 0 {
 			fp = s.Fp
+		}
+		if s.FpZero {
+			fp = 0
 		}
 		// one index row per UTC day on which the series has samples, as the writer stores them
 		days := map[string]bool{}
